@@ -33,7 +33,7 @@ def apply_text(d, rel, old, new):
     p = os.path.join(d, rel)
     s = open(p).read()
     if s.count(old) != 1:
-        raise SystemExit('mutant text not found exactly once in %s: %r (found %d)' % (rel, old[:60], s.count(old)))
+        raise ValueError('mutant text not found exactly once in %s: %r (found %d)' % (rel, old[:60], s.count(old)))
     open(p, 'w').write(s.replace(old, new))
 
 
@@ -90,8 +90,14 @@ def main():
                 subprocess.run(['git', 'apply', '--unsafe-paths', '--directory', d, os.path.join(VERIF, m['patch'])],
                                check=True, cwd=d)
             else:
-                for rel, old, new in m['edits']:
-                    apply_text(d, rel, old, new)
+                try:
+                    for rel, old, new in m['edits']:
+                        apply_text(d, rel, old, new)
+                except ValueError as e:
+                    print('%-4s %-45s STALE-MUTANT %s' % (pid, name, e), flush=True)
+                    results.append({'prop': pid, 'name': name, 'caught': False, 'exit': None, 'wall_s': 0,
+                                    'first': ['stale mutant text: %s' % e], 'pinned_tests_pass': None})
+                    continue
             tests_ok = None
             if a.tests:
                 tests_ok, tail = run_tests(d)
